@@ -18,10 +18,14 @@ def run(tier):
     ]
     r.outside += ["histories longer than the bound; paths longer than the bound; alphabets larger than 4 call sites"]
     if tier == "quick":
-        confs = [dict(n=2, m=2, codes=4, kmax=2, pct=240), dict(n=3, m=2, codes=2, kmax=1, pct=300, first_add=True)]
+        confs = [dict(n=2, m=2, codes=4, kmax=2, pct=240), dict(n=3, m=2, codes=2, kmax=1, pct=300, first_add=True),
+                 dict(n=5, m=1, codes=2, kmax=1, pct=300, first_add=True)]
     else:
         confs = [dict(n=2, m=3, codes=4, kmax=2, pct=1500), dict(n=3, m=2, codes=3, kmax=2, pct=3000),
-                 dict(n=3, m=2, codes=4, kmax=1, pct=3000), dict(n=4, m=2, codes=2, kmax=1, pct=3000)]
+                 dict(n=3, m=2, codes=4, kmax=1, pct=3000), dict(n=4, m=2, codes=2, kmax=1, pct=3000, first_add=True),
+                 dict(n=5, m=2, codes=2, kmax=1, pct=3000, first_add=True, kinds=[0, 0, 1, 1, 0]),
+                 dict(n=5, m=2, codes=2, kmax=1, pct=3000, first_add=True, kinds=[0, 0, 1, 0, 0]),
+                 dict(n=5, m=2, codes=2, kmax=1, pct=3000, first_add=True, kinds=[0, 1, 0, 1, 0])]
     b = xrun.Batch(r)
     for c in confs:
         n, m, codes = c["n"], c["m"], c["codes"]
@@ -29,12 +33,20 @@ def run(tier):
         for l in range(1, m + 1):
             firsts += [list(t) for t in itertools.product(range(codes), repeat=l)]
         kmax = c["kmax"]
-        slices = [dict(n=n, m=m, codes=codes, kmax=kmax, first=[k, p]) for k in range(1 if c.get('first_add') else kmax + 1) for p in firsts]
-        b.add(f"history(n={n},maxlen={m},alphabet={codes},kinds={'add/remove/exists' if kmax == 2 else 'add/remove'})", M, "check_history", slices=slices, pct=c["pct"],
-                   ppt=30, twin="check_history_reach", twin_slice=dict(n=n, m=m, codes=codes, kmax=kmax, first=[0, [0]]),
+        ops0 = [[k, p] for k in range(1 if c.get('first_add') else kmax + 1) for p in firsts]
+        ops1 = [[k, p] for k in range(kmax + 1) for p in firsts]
+        if c.get("kinds"):
+            ops1 = [o for o in ops1 if o[0] == c["kinds"][1]]
+        prefixes = [[a] for a in ops0] if n < 4 else [[a, b_] for a in ops0 for b_ in ops1]
+        slices = [dict(n=n, m=m, codes=codes, kmax=kmax, prefix=pf, kinds=c.get("kinds")) for pf in prefixes]
+        kd = "add/remove/exists" if kmax == 2 else "add/remove"
+        if c.get("kinds"):
+            kd = "pattern " + "".join("ARE"[k] for k in c["kinds"])
+        b.add(f"history(n={n},maxlen={m},alphabet={codes},kinds={kd})", M, "check_history", slices=slices, pct=c["pct"],
+                   ppt=30, twin="check_history_reach", twin_slice=dict(n=n, m=m, codes=codes, kmax=kmax, prefix=[[0, [0]]], kinds=c.get('kinds')),
                    bounds={"operations": n, "max_path_length": m, "alphabet": codes,
                            "first_operation": "add only" if c.get("first_add") else "any",
-                           "slice": "the first operation (kind, path) is fixed per worker"})
+                           "slice": "the first one or two operations (kind, path) are fixed per worker"})
     b.add("CallSite eq/lt/negative for all ids", M, "check_callsite", pct=60,
                bounds={"ids": "unbounded ints"})
     b.add("CallSite hash consistent with eq", M, "check_callsite_hash", pct=60,
